@@ -26,9 +26,11 @@ def TagsColonFree (cfg : Cfg α) : Prop := ∀ tag c, cfg.registry tag = some c 
 def P1 (pk : Pickler α) (v : Val α) : Prop :=
   ∃ p, pk.dumps v = .bytes p ∧ pk.loads p = .ok v ∧ v.isBytes = false
 
-/-- **P2** for the byte string `b` (used only for `b = type tag ++ ":" ++ encoder output`): `loads`
-rejects it with a member of the pickler's `UnpicklingError` class -/
-def P2 (pk : Pickler α) (b : Bytes) : Prop := pk.loads b = .unpickling
+/-- **P2** for the value `v`: its pickled form does not start with a registered type tag followed by
+`:` (so `decode` does not mistake it for a custom-encoded payload).  Since fix d1f0dd9 custom-encoded
+payloads are never fed to the unpickler, which is why P2 no longer has to say anything about what
+`loads` does on them (it used to be false for the real pickle, e.g. for a class named `Item`). -/
+def P2 (cfg : Cfg α) (v : Val α) : Prop := ∀ p, cfg.pickler.dumps v = .bytes p → isCustomEncoded cfg p = false
 
 /-- **P3** for the value `v`: its pickled form is not a string of ASCII digits -/
 def P3 (pk : Pickler α) (v : Val α) : Prop := ∀ p, pk.dumps v = .bytes p → isDigits p = false
@@ -112,29 +114,35 @@ theorem encoded_blob_never_digits (cfg : Cfg α) (key : Bytes) (v : Val α) (b :
       exact hsign _ h (fun p hp => hp3 p hp)
 
 /-- decoding a signed-or-not blob whose payload is `p`: the digit shortcut is skipped, the
-signature verifies, and `loads p` decides -/
+signature verifies, and either the custom decoder or `loads p` decides -/
 private theorem decode_signed (cfg : Cfg α) (hhex : HexMac cfg) (key p b : Bytes)
     (hsig : sign cfg key (.bytes p) = some (.bytes b)) (hnd : isDigits b = false) :
-    decode cfg key (.bytes b) false = postLoads cfg p (cfg.pickler.loads p) := by
+    decode cfg key (.bytes b) false
+      = if isCustomEncoded cfg p then customDecode cfg p else postLoads cfg p (cfg.pickler.loads p) := by
   have := check_sign_sign_any cfg hhex key p b hsig
-  simp [decode, preLoads, hnd, this]
+  by_cases hc : isCustomEncoded cfg p = true <;> simp [decode, preLoads, hnd, this, hc]
+
+/-- `tag:payload` with a registered, colon-free tag is recognised as custom-encoded -/
+private theorem isCustomEncoded_tagged (cfg : Cfg α) (htags : ∀ tag c, cfg.registry tag = some c → colon ∉ tag)
+    (tag payload : Bytes) (c : Codec α) (hreg : cfg.registry tag = some c) :
+    isCustomEncoded cfg (tag ++ colon :: payload) = true := by
+  simp [isCustomEncoded, splitFirst_append colon _ _ (htags _ c hreg), hreg]
 
 /-- **Round trip, real picklers** (default pickle, json, dill, sqlalchemy; with or without a secret;
 any of the four digests).  For every key and every value `v`:
 
 * an integer is stored raw and comes back as that integer;
 * a value of a registered type (`bytes` is the built-in instance with `enc = dec = id`) comes back
-  through its own pair, provided `dec (enc v) = v`, the type tag has no `:` and (P2) the pickler
-  rejects the custom-encoded payload;
-* any other value comes back through the pickler, provided P1 and P3 hold for it.
+  through its own pair — whatever bytes the encoder produced, whatever the pickler would make of
+  them — provided `dec (enc v) = v` and the type tag has no `:`;
+* any other value comes back through the pickler, provided P1, P2 and P3 hold for it.
 
 `same = false`: the stored object is not the very object the caller passed as `default`. -/
 theorem decode_encode (cfg : Cfg α) (key : Bytes) (v : Val α)
     (hhex : HexMac cfg) (htags : TagsColonFree cfg)
     (hR : ∀ c, cfg.registry (tagOf cfg v) = some c → c.dec (c.enc v) = some v)
-    (hP2 : ∀ c, cfg.registry (tagOf cfg v) = some c → P2 cfg.pickler (tagOf cfg v ++ colon :: c.enc v))
     (hP1 : (∀ i, v ≠ .int i) → cfg.registry (tagOf cfg v) = none → P1 cfg.pickler v)
-    (hP3 : P3 cfg.pickler v) :
+    (hP2 : P2 cfg v) (hP3 : P3 cfg.pickler v) :
     ∃ w, encode cfg key v = some w ∧ decode cfg key w false = .value v := by
   -- a successful `sign` of bytes always exists
   have hsign : ∀ p : Bytes, ∃ b, sign cfg key (.bytes p) = some (.bytes b) := by
@@ -160,10 +168,8 @@ theorem decode_encode (cfg : Cfg α) (key : Bytes) (v : Val α)
       refine ⟨.bytes b, by rw [henc, hce]; exact hb, ?_⟩
       have hnd : isDigits b = false :=
         encoded_blob_never_digits cfg key v b hP3 (by rw [henc, hce]; exact hb)
-      rw [decode_signed cfg hhex key _ b hb hnd]
-      have : cfg.pickler.loads (tagOf cfg v ++ colon :: c.enc v) = .unpickling := hP2 c hreg
-      rw [this]
-      simp [postLoads, customDecode, splitFirst_append colon _ _ (htags _ c hreg), hreg, hR c hreg]
+      rw [decode_signed cfg hhex key _ b hb hnd, isCustomEncoded_tagged cfg htags _ _ c hreg]
+      simp [customDecode, splitFirst_append colon _ _ (htags _ c hreg), hreg, hR c hreg]
     | none =>
       have hce : customEncode cfg v = none := by simp [customEncode, hreg]
       obtain ⟨p, hd, hl, hnb⟩ := hP1 hni hreg
@@ -171,7 +177,7 @@ theorem decode_encode (cfg : Cfg α) (key : Bytes) (v : Val α)
       refine ⟨.bytes b, by rw [henc, hce, hd]; exact hb, ?_⟩
       have hnd : isDigits b = false :=
         encoded_blob_never_digits cfg key v b hP3 (by rw [henc, hce, hd]; exact hb)
-      rw [decode_signed cfg hhex key _ b hb hnd, hl]
+      rw [decode_signed cfg hhex key _ b hb hnd, hP2 p hd, hl]
       cases v with
       | int i => exact absurd rfl (hni i)
       | bytes _ => simp [Val.isBytes] at hnb
@@ -198,8 +204,8 @@ theorem decode_encode_null (cfg : Cfg α) (key : Bytes) (v : Val α)
     | some c =>
       refine ⟨.bytes (tagOf cfg (.bytes vb) ++ colon :: c.enc (.bytes vb)), ?_, ?_⟩
       · simp [encode, customEncode, hreg, hsign]
-      · simp [decode, preLoads, isDigits_with_colon, checkSign, hs, hpk, Pickler.null, postLoads, customDecode,
-          splitFirst_append colon _ _ (htags _ c hreg), hreg, hR c hreg]
+      · simp [decode, preLoads, isDigits_with_colon, checkSign, hs, isCustomEncoded_tagged cfg htags _ _ c hreg,
+          customDecode, splitFirst_append colon _ _ (htags _ c hreg), hreg, hR c hreg]
   | obj x =>
     cases hreg : cfg.registry (tagOf cfg (.obj x)) with
     | none =>
@@ -209,8 +215,8 @@ theorem decode_encode_null (cfg : Cfg α) (key : Bytes) (v : Val α)
     | some c =>
       refine ⟨.bytes (tagOf cfg (.obj x) ++ colon :: c.enc (.obj x)), ?_, ?_⟩
       · simp [encode, customEncode, hreg, hsign]
-      · simp [decode, preLoads, isDigits_with_colon, checkSign, hs, hpk, Pickler.null, postLoads, customDecode,
-          splitFirst_append colon _ _ (htags _ c hreg), hreg, hR c hreg]
+      · simp [decode, preLoads, isDigits_with_colon, checkSign, hs, isCustomEncoded_tagged cfg htags _ _ c hreg,
+          customDecode, splitFirst_append colon _ _ (htags _ c hreg), hreg, hR c hreg]
 
 /-- `value is default`: when the stored object is the very object the caller passed as default,
 `decode` returns the default — i.e. that same object, so the caller still receives the stored value. -/
@@ -252,7 +258,7 @@ example : TagsColonFree (toyCfg (some toySigner)) := by
   · cases h
 example : P1 toyPickler (.obj 7) := ⟨[0x80, 7], rfl, rfl, rfl⟩
 example : P3 toyPickler (.obj 7) := by intro p h; cases h; decide
-example : P2 toyPickler (tagBytes ++ colon :: [0x31, 0x32, 0x33]) := rfl
+example : P2 (toyCfg (some toySigner)) (.obj 7) := by intro p h; cases h; decide
 
 -- the model does something: b"123" (digit-only bytes) signed under key "k" with md5 …
 example : encode (toyCfg (some toySigner)) [0x6b] (.bytes [0x31, 0x32, 0x33])
